@@ -1807,7 +1807,16 @@ func (p *parser) scanCharSet(caseInsensitive, scanOnly bool) (*CharSet, error) {
 				continue
 
 			case '-':
-				if !scanOnly {
+				// an escaped '-' is an ordinary member; it may also be the end of a range
+				if inRange {
+					inRange = false
+					if !scanOnly {
+						if chPrev > ch {
+							return nil, p.getErr(ErrReversedCharRange, chPrev, ch)
+						}
+						cc.addRange(chPrev, ch)
+					}
+				} else if !scanOnly {
 					cc.addRange(ch, ch)
 				}
 				continue
